@@ -100,6 +100,9 @@ func Restore(r io.Reader, dstPath string) (int64, error) {
 			}
 			walFiles = append(walFiles, walPath)
 		}
+		if err := expectEOF(r); err != nil {
+			return totalRead, err
+		}
 		if err := db.ReplayWAL(dstPath, walFiles, false); err != nil {
 			return totalRead, fmt.Errorf("checkpointing WALs: %w", err)
 		}
@@ -108,5 +111,23 @@ func Restore(r io.Reader, dstPath string) (int64, error) {
 		}
 	}
 
+	if len(full.WalHeaders) == 0 {
+		if err := expectEOF(r); err != nil {
+			return totalRead, err
+		}
+	}
 	return totalRead, nil
+}
+
+// expectEOF returns an error unless r is exhausted. The stream must end with
+// the last file described by the header; anything after it means the header
+// and the data do not belong together.
+func expectEOF(r io.Reader) error {
+	var b [1]byte
+	if _, err := io.ReadFull(r, b[:]); err == nil {
+		return fmt.Errorf("unexpected data after last file in snapshot stream")
+	} else if err != io.EOF {
+		return fmt.Errorf("reading end of snapshot stream: %w", err)
+	}
+	return nil
 }
